@@ -16,11 +16,14 @@ AST (tuples or lists - a replayed case arrives as JSON):
   ('attr', e, name)               e.name
   ('bin', op, a, b)               a op b          op in + * = > in
   ('call', name, [args], [[kw, e], ...])          name(args, kw => e)
-  ('meth', recv, name, [args])    recv.name(args)
+  ('meth', recv, name, [args], [[kw, e], ...])    recv.name(args, kw => e)   (keyword part optional)
   ('arrow', c, e)                 c -> e
-  ('dcall', f, [args])            (f)(args)       delegate call
+  ('dcall', f, [args], [[kw, e], ...])            (f)(args, kw => e)         delegate call (keyword part optional)
 Binding constructs are ordinary calls: let / with / def / lambda by 'call',
-unpack / select / where / len / toList by 'meth'.
+unpack / select / where / toDict / distinct / len / toList by 'meth'.  A library
+function that documents its parameter names (collection.toDict(keySelector,
+valueSelector => null), ...) accepts its arguments by keyword as well; a
+keyword-passed lambda is as lazy as a positional one.
 
 Values: None, bool, int, str, list, dict (insertion ordered), Lazy (the
 one-shot iterable returned by select / where / collection attribution /
@@ -32,6 +35,9 @@ consumed twice, equality / ordering / truth of values for which the
 documentation defines none (bool against number, iterables, contexts), a
 context or delegate inside the final result.
 """
+
+
+import re
 
 
 class Err(Exception):
@@ -78,7 +84,7 @@ class Closure(object):
         self.body = body
         self.frame = frame
 
-    def __call__(self, *args, **kwargs):
+    def __call__(self, /, *args, **kwargs):     # any keyword is a legal variable name, `self` included
         f = Frame(self.frame)
         for i, a in enumerate(args, 1):
             f.vars[str(i)] = a
@@ -314,6 +320,35 @@ def _where(frame, args, kwargs):
     return Lazy(x for x in coll if truth(fn(x)))
 
 
+def _to_dict(frame, args, kwargs):
+    # "keys are keySelector applied to collection elements and values are valueSelector applied to
+    # collection elements ... null by default, which means values to be collection items"
+    coll, kf, vf = args
+    if not is_coll(coll):
+        raise Err('toDict')
+    out = {}
+    for x in coll:
+        k = key_ok(kf(x))
+        put(out, k, x if vf is None else vf(x))
+    return out
+
+
+def _distinct(frame, args, kwargs):
+    # "Returns only unique members of the collection. If keySelector is specified, it is used to determine uniqueness."
+    coll, kf = args
+    if not is_coll(coll):
+        raise Err('distinct')
+
+    def gen():
+        seen = []
+        for x in coll:
+            k = x if kf is None else kf(x)
+            if not any([equal(k, s) for s in seen]):
+                seen.append(k)
+                yield x
+    return Lazy(gen())
+
+
 def _len(frame, args, kwargs):
     if len(args) != 1 or kwargs:
         raise Err('len')
@@ -331,14 +366,19 @@ def _to_list(frame, args, kwargs):
     return list(args[0])
 
 
+# name -> (form, lazy positions, implementation[, (documented parameter names, number of required ones)])
+# With parameter names the arguments may be passed by keyword and arrive positionally (missing optional
+# ones as null); without, keyword arguments are handed to the implementation (let) .
 LIB = {
     'let': ('f', (), _let),
     'with': ('f', (), _with),
     'unpack': ('m', (), _unpack),
     'def': ('f', (1,), _def),
     'lambda': ('f', (0,), _lambda),
-    'select': ('m', (1,), _select),
-    'where': ('m', (1,), _where),
+    'select': ('m', (1,), _select, (('collection', 'selector'), 2)),
+    'where': ('m', (1,), _where, (('collection', 'predicate'), 2)),
+    'toDict': ('m', (1, 2), _to_dict, (('collection', 'keySelector', 'valueSelector'), 2)),
+    'distinct': ('m', (1,), _distinct, (('collection', 'keySelector'), 1)),
     'len': ('fm', (), _len),
     'toList': ('m', (), _to_list),
 }
@@ -403,9 +443,10 @@ def ev(e, env):
     if k == 'dcall':
         f = ev(e[1], env)
         args = [ev(x, env) for x in e[2]]
+        kwargs = dict((n, ev(x, env)) for n, x in (e[3] if len(e) > 3 else []))
         if not isinstance(f, Closure):
             raise Err('not callable')
-        return f(*args)
+        return f(*args, **kwargs)
     if k == 'call':
         name, argx, kwx = e[1], e[2], (e[3] if len(e) > 3 else [])
         user = env.func(name)
@@ -421,7 +462,7 @@ def ev(e, env):
         name = e[2]
         if name not in LIB or 'm' not in LIB[name][0]:
             raise Err('unknown method ' + name)
-        return _invoke(name, recv, e[3], [], env, 1)
+        return _invoke(name, recv, e[3], e[4] if len(e) > 4 else [], env, 1)
     if k in EXT:
         return EXT[k](e, env)
     raise AssertionError(k)
@@ -431,13 +472,31 @@ def _invoke(name, recv, argx, kwx, env, shift):
     """A call evaluates its eager arguments in the caller's frame, left to
     right, and runs in a child frame; a lazy argument becomes a closure over
     that child frame."""
-    _, lazy, impl = LIB[name]
+    spec = LIB[name]
+    lazy, impl = spec[1], spec[2]
     frame = Frame(env)
+
+    def value(i, x):
+        return Closure(x, frame) if (lazy == '*' or i in lazy) else ev(x, env)
     args = [recv] if shift else []
     for i, x in enumerate(argx):
-        args.append(Closure(x, frame) if (lazy == '*' or (i + shift) in lazy) else ev(x, env))
-    kwargs = dict((n, ev(x, env)) for n, x in kwx)
-    return impl(frame, args, kwargs)
+        args.append(value(i + shift, x))
+    if len(spec) < 4:
+        return impl(frame, args, dict((n, ev(x, env)) for n, x in kwx))
+    names, required = spec[3]
+    if len(args) > len(names):
+        raise Err('too many arguments')
+    slots = args + [MISSING] * (len(names) - len(args))
+    for n, x in kwx:                    # positional arguments first, then keywords as written
+        if n not in names or slots[names.index(n)] is not MISSING:
+            raise Err('no parameter %s to pass by keyword' % n)
+        slots[names.index(n)] = value(names.index(n), x)
+    if MISSING in slots[:required]:
+        raise Err('required argument missing')
+    return impl(frame, [None if a is MISSING else a for a in slots], {})
+
+
+MISSING = object()
 
 
 def finalize(v):
@@ -451,10 +510,15 @@ def finalize(v):
     return v
 
 
-def run(ast, data=None, bind_data=True):
-    """Evaluate ast with `$` bound to the document `data`."""
+def run(ast, data=None, bind_data=True, external=None):
+    """Evaluate ast with `$` bound to the document `data`.  `external`: variables a host supplies for
+    names bound in no scope (language reference, "Variable access": the host may override
+    #get_context_data and "look up the value in an external data source")."""
     NOTES.clear()
     top = Frame()
+    if external:
+        top.parent = Frame()
+        top.parent.vars.update(external)
     if bind_data:
         top.vars['1'] = data
     try:
@@ -527,20 +591,35 @@ def text(e):
     if k == 'arrow':
         return '(%s -> %s)' % (text(e[1]), text(e[2]))
     if k == 'dcall':
-        return '((%s)(%s))' % (text(e[1]), ', '.join(text(x) for x in e[2]))
+        return '((%s)(%s))' % (text(e[1]), ', '.join([text(x) for x in e[2]] + _kwargs(e[3] if len(e) > 3 else [])))
     if k == 'call':
-        kw = e[3] if len(e) > 3 else []
-        return '%s(%s)' % (e[1], ', '.join(_args(e[1], e[2], 0) + ['%s => %s' % (n, text(x)) for n, x in kw]))
+        return '%s(%s)' % (e[1], ', '.join(_args(e[1], e[2], 0) + _kwargs(e[3] if len(e) > 3 else [])))
     if k == 'meth':
-        return '%s.%s(%s)' % (_recv(e[1]), e[2], ', '.join(_args(e[2], e[3], 1)))
+        return '%s.%s(%s)' % (_recv(e[1]), e[2], ', '.join(_args(e[2], e[3], 1) + _kwargs(e[4] if len(e) > 4 else [])))
     if k in TEXT_EXT:
         return TEXT_EXT[k](e)
     raise AssertionError(k)
 
 
+RESERVED = ('true', 'false', 'null', 'and', 'or', 'not', 'in', 'mod')
+
+
+def is_keyword(s):
+    """language reference, "Keywords": alphanumeric characters and underscore, not starting with a digit or
+    two underscores; the predefined keywords and keyword operators mean something else."""
+    return bool(re.match(r'^(?!__)[^\W\d]\w*$', s)) and s not in RESERVED
+
+
+def _kwargs(kw):
+    for n, _ in kw:
+        if not is_keyword(n):
+            raise ValueError('not a keyword: %r' % (n,))
+    return ['%s => %s' % (n, text(x)) for n, x in kw]
+
+
 def _key(kx):
     # {a => 1}: a keyword is the string of its spelling
-    if kx[0] == 'lit' and isinstance(kx[1], str) and kx[1].isalpha() and kx[1] not in ('true', 'false', 'null'):
+    if kx[0] == 'lit' and isinstance(kx[1], str) and kx[1].isascii() and is_keyword(kx[1]):
         return kx[1]
     return text(kx)
 
@@ -556,7 +635,7 @@ def _args(name, argx, shift):
     out = []
     for i, x in enumerate(argx):
         # names given to unpack / def are keywords (strings spelled bare)
-        if x[0] == 'lit' and isinstance(x[1], str) and x[1].isalpha() and \
+        if x[0] == 'lit' and isinstance(x[1], str) and is_keyword(x[1]) and \
                 ((name == 'unpack') or (name == 'def' and i == 0)):
             out.append(x[1])
         else:
